@@ -3,6 +3,7 @@ package main
 import (
 	"fmt"
 	"strconv"
+	"strings"
 	"time"
 
 	"verif/ev"
@@ -41,4 +42,29 @@ func c06jobMain(args []string) {
 	t0 := time.Now()
 	res := decodeDirect(applyMutation(c.Seed.Data, c.Mut), c.Format, c.Force)
 	fmt.Printf("decode: %v tree=%v err=%v panic=%v\n", time.Since(t0), res.V != nil, res.Err != nil, res.Panic != nil)
+}
+
+func init() { register("treecase", treecaseMain) }
+
+// treecase <label-substring>: debug helper, runs the invariant walker on every tree job whose label contains the substring.
+func treecaseMain(args []string) {
+	jobs := treeJobs(ev.Seed(), true, 0)
+	for _, j := range jobs {
+		if !strings.Contains(j.Label, args[0]) {
+			continue
+		}
+		res := decodeDirect(j.Data(), j.Format, j.Force)
+		fmt.Printf("%s: tree=%v err=%v panic=%v\n", j.Label, res.V != nil, res.Err != nil, res.Panic != nil)
+		if res.V == nil {
+			continue
+		}
+		var st treeStats
+		issues := checkTree(res.V, &st)
+		fmt.Printf("  values=%d nested=%d viewreaders=%d issues=%d\n", st.Values, st.NestedRoots, st.ViewReaders, len(issues))
+		for i, is := range issues {
+			if i < 10 {
+				fmt.Printf("  %s: %s\n", is.Sig, is.Desc)
+			}
+		}
+	}
 }
